@@ -20,7 +20,7 @@ ASSUME = [
 
 def consts(part, NA, NI, emit=True):
     c = dict(ARR)
-    c.update({"NA": NA, "NK": {2: 2, 3: 3, 7: 5}[NA], "KeyOf": {2: "<-KeyOf3", 3: "<-KeyOf3", 7: "<-KeyOf7"}[NA], "NI": NI,
+    c.update({"NA": NA, "NK": {2: 2, 3: 3, 7: 5, 8: 6}[NA], "KeyOf": {2: "<-KeyOf3", 3: "<-KeyOf3", 7: "<-KeyOf7", 8: "<-KeyOf8"}[NA], "NI": NI,
               "Part": part, "DoEmit": emit})
     return c
 
@@ -38,7 +38,20 @@ def generate(run, name, c, wd, simulate=None, depth=None, seed=None):
     return res["json"]
 
 
-def traces_from(transitions, limit=None):
+def make_observers(NA):
+    def observers(c):
+        if c["op"] in ("tnew", "tclear"):
+            cls = c["a"][0] or 1
+            return [{"op": "tnew", "a": [cls, 1]}]
+        cls = c["a"][0] if c["op"] != "sadd" else 1
+        obs = [{"op": "sgetall", "a": [cls]}]
+        if len(c["a"]) > 1:
+            obs += [{"op": "scheck", "a": [cls, c["a"][1]]}, {"op": "snew", "a": [cls, c["a"][1]]}]
+        return obs
+    return observers
+
+
+def traces_from(transitions, limit=None, observers=None):
     """one trace per (state, call): the BFS path of the model to the state, then the call"""
     key = lambda s: json.dumps(s, sort_keys=True)
     parent = {}
@@ -63,6 +76,10 @@ def traces_from(transitions, limit=None):
             path.append(c)
         path.reverse()
         out.append(path + [tr["c"]])
+        if ks == kt and tr["c"]["op"] in ("snew", "tnew", "sdrop", "sadd", "sclear", "tclear") and observers is not None:
+            # the specification says this call changes nothing (e.g. a construction whose __init__ raises, a drop of a
+            # key that is not live): the hidden tables must agree - observe them right afterwards
+            out.append(path + [tr["c"]] + observers(tr["c"]))
     return out
 
 
@@ -112,7 +129,7 @@ def event_class(ev):
 
 def run_part(run, prop, name, c, wd, simulate=None, depth=None, seed=None, limit=None):
     trans = generate(run, name, c, wd, simulate=simulate, depth=depth, seed=seed)
-    traces = traces_from(trans)
+    traces = traces_from(trans, observers=make_observers(c["NA"]))
     if limit and len(traces) > limit:
         step = len(traces) / limit
         traces = [traces[int(i * step)] for i in range(limit)]
@@ -121,8 +138,6 @@ def run_part(run, prop, name, c, wd, simulate=None, depth=None, seed=None, limit
     for v in verdicts:
         t = recs[v["id"] - 1]
         ev = t["events"][v["step"] - 1]
-        if v["step"] != len(t["events"]):
-            continue            # reported where it is the trace's last call (each prefix is a trace of its own)
         run.violation(f"{event_class(ev)}|{'+'.join(sorted(v['fail']))}",
                       f"{ev['c']['op']}{ev['c']['a']} returned {ev['res']} (inits {ev['inits']}) but the specification says {v['exp']}",
                       {"kind": "singleton", "consts": {k: v_ for k, v_ in c.items()}, "events": [e["c"] for e in t["events"]],
@@ -162,9 +177,10 @@ def c18(tier, seed, wd, replay=None):
                 "specification; class = last call x path length; non-trivial = every trace")
     if tier == "quick":
         run_part(run, "C18", "true-3cls-3args", consts("true", 3, 4), wd)
+        run_part(run, "C18", "true-sim-8args", consts("true", 8, 6), wd, simulate="num=30", depth=12, seed=seed + 3, limit=4000)
     else:
         run_part(run, "C18", "true-3cls-3args-5inst", consts("true", 3, 5), wd, limit=60000)
-        run_part(run, "C18", "true-sim", consts("true", 7, 8), wd, simulate="num=200", depth=25, seed=seed + 3, limit=20000)
+        run_part(run, "C18", "true-sim", consts("true", 8, 8), wd, simulate="num=200", depth=25, seed=seed + 3, limit=20000)
     run.exhaustive = True
     run.assumptions = ASSUME
     return run.finish(nontrivial_filter=lambda c: True,
@@ -184,10 +200,10 @@ def c17(tier, seed, wd, replay=None):
                 "class = last call x path length; non-trivial = every trace")
     if tier == "quick":
         run_part(run, "C17", "semi-4cls-2args", consts("semi", 2, 3), wd)
-        run_part(run, "C17", "semi-sim-7args", consts("semi", 7, 6), wd, simulate="num=40", depth=15, seed=seed + 5, limit=6000)
+        run_part(run, "C17", "semi-sim-8args", consts("semi", 8, 6), wd, simulate="num=40", depth=15, seed=seed + 5, limit=6000)
     else:
         run_part(run, "C17", "semi-4cls-3args", consts("semi", 3, 3), wd, limit=80000)
-        run_part(run, "C17", "semi-sim-7args", consts("semi", 7, 8), wd, simulate="num=300", depth=25, seed=seed + 5, limit=40000)
+        run_part(run, "C17", "semi-sim-8args", consts("semi", 8, 8), wd, simulate="num=300", depth=25, seed=seed + 5, limit=40000)
     run.exhaustive = True
     run.assumptions = ASSUME
     return run.finish(nontrivial_filter=lambda c: True,
